@@ -13,6 +13,7 @@ mod crash;
 mod wire;
 mod netfuzz;
 mod pairing;
+mod scan;
 use hcommon::parse_cli;
 
 fn main() {
@@ -34,6 +35,7 @@ fn main() {
         "fprobe2" => folder::probe2(&cli),
         "amerge" => folder::run_account_merge(&cli),
         "sched" => sync::run_sched(&cli),
+        "scan" => scan::run(&cli),
         d => {
             eprintln!("unknown domain {d}");
             std::process::exit(2);
